@@ -512,6 +512,8 @@ func runC16(c *Check) {
 	c.ruleResponsesAlwaysForwarded("R14")
 	c.ruleRequestTimerAfterSend("R15")
 	c.rulePendingListShrinksOnlyByRemoval("R16")
+	c.ruleRejectEndsOnlyUnaccepted("R17")
+	c.ruleResponseAlwaysHandedOver("R18")
 	c.ruleRemoveByIdentity("R6", fRequests, c.P.Field("client", "RemoteClient", "removeRequestsChannel"))
 
 	// ---- R6 ownership of the pending list
